@@ -1,5 +1,9 @@
 (* Correspondence harness for C35 (internal/redispartition).
-   Cases are observations of the real FindTags / TagSlot / crc16 / SlotToNode. *)
+   Cases are observations of the real FindTags / TagSlot / crc16 / SlotToNode.
+   Tag tables are observed as a CALLER HOLDS them: the driver obtains every
+   table once (for every count FindTags accepts when probed over 0..16400, in
+   ascending and in descending order of calls) and examines the held slices
+   after all later lookups; random balance cases interleave two lookups. *)
 From Coq Require Import List NArith Bool.
 From Cfg Require Export Lib.Run Model.Crc16 Model.Partition Gen.Precomputed.
 From Cfg Require Import Proofs.Partition.
@@ -13,8 +17,10 @@ Inductive case :=
     (* counts[SlotToNode(TagSlot(tag), n)]++ over FindTags(p): min / max / sum of the n counters *)
 | CCrc (data : list N) (crc slot : N)
     (* crc16(data), TagSlot(string(data)) *)
-| CNode (slot n : N) (res : option N).
+| CNode (slot n : N) (res : option N)
     (* SlotToNode(slot, n); None = panic *)
+| CProbe (hi : N) (listed accepted : list N).
+    (* PrecomputedSizes(), and every p in 0..hi for which FindTags(p) returned no error (ascending) *)
 
 Fixpoint eqb_listN (a b : list N) : bool :=
   match a, b with
@@ -87,6 +93,10 @@ Definition corr (c : case) : bool :=
       end
   | CCrc data crc slot => (crc16_loop data =? crc) && (tag_slot data =? slot)
   | CNode slot n res => optN_eqb (slot_to_node slot n) res
+  | CProbe hi listed accepted =>
+      (* supported counts = sizes of the generated table, both as listed and as accepted *)
+      let sizes := NSort.sort (map fst precomputed) in
+      eqb_listN sizes listed && eqb_listN (filter (fun p => p <=? hi) sizes) accepted
   end.
 
 (* The property on what the implementation returned:
@@ -113,6 +123,10 @@ Definition oracle (c : case) : bool :=
         | None => false
         end
       else true
+  | CProbe hi listed accepted =>
+      (* every listed count (within the probed range) is served; the property itself is judged on the
+         CTags / CBal cases the driver emits for EVERY accepted count *)
+      forallb (fun p => (hi <? p) || existsb (N.eqb p) accepted) listed
   end.
 
 Definition run (cs : list case) := failing corr oracle cs.
